@@ -748,7 +748,12 @@ class RewriteRuleSet:
                     )
 
                     used_domains: set[str] = {node.domain for node in original_nodes}
-                    parent_opset_imports = graph_or_function.opset_imports
+                    # A subgraph of a control-flow node has no import table of its own: the
+                    # imports of the main graph are in force there.
+                    parent_opset_imports = {
+                        **model.graph.opset_imports,
+                        **graph_or_function.opset_imports,
+                    }
                     used_opset_imports = {
                         k: v for k, v in parent_opset_imports.items() if k in used_domains
                     }
